@@ -48,6 +48,7 @@ type kindState struct {
 }
 
 type kindAnalysis struct {
+	retW   map[*ssa.Function]map[[2]int]wrapState // (parameter assumed wrapped, result) -> wrap state of that result
 	ifaceT map[*ssa.Global]bool
 	fieldW map[string]wrapState // "Struct.field" -> wrap state of what is stored there (vm-local structs)
 	m      *vmModel
@@ -224,6 +225,11 @@ func (f *kindFlow) wrapOf(v ssa.Value, s *kindState, depth int) wrapState {
 		return wNo
 	case *ssa.Extract:
 		if c, ok := x.Tuple.(*ssa.Call); ok {
+			if callee := staticCallee(c); callee != nil && callee.Pkg == f.a.m.sp && isReflectValue(x.Type()) {
+				if w, ok := f.resultByParams(c, callee, x.Index, s, depth); ok {
+					return w
+				}
+			}
 			if callee := staticCallee(c); callee != nil && callee.Pkg == f.a.m.sp && x.Index == 0 && len(c.Call.Args) >= 1 && isReflectValue(c.Call.Args[0].Type()) {
 				return f.wrapOf(c.Call.Args[0], s, depth+1) // conversion helpers can hand their argument back
 			}
@@ -257,6 +263,11 @@ func (f *kindFlow) wrapOf(v ssa.Value, s *kindState, depth int) wrapState {
 		if o := calleeObj(x); o != nil && o.Pkg() != nil && o.Pkg().Path() == "reflect" {
 			return wNo // ValueOf, Zero, New, Make*, Append*
 		}
+		if callee := staticCallee(x); callee != nil && callee.Pkg == f.a.m.sp && callee.Signature.Results().Len() == 1 {
+			if w, ok := f.resultByParams(x, callee, 0, s, depth); ok {
+				return w
+			}
+		}
 		if callee := staticCallee(x); callee != nil && callee.Pkg == f.a.m.sp && callee.Signature.Results().Len() >= 1 && isReflectValue(callee.Signature.Results().At(0).Type()) {
 			// helper returning a Value: wrapped only if it can return one of its Value arguments unchanged or an element read
 			for _, a := range x.Call.Args {
@@ -272,6 +283,30 @@ func (f *kindFlow) wrapOf(v ssa.Value, s *kindState, depth int) wrapState {
 		return wNo
 	}
 	return wNo
+}
+
+// resultByParams: result #k of a call of a helper of vm, from the helper's return summaries: wrapped when some argument that
+// arrives wrapped can come back wrapped, or the helper hands back an element it read; ok=false when the helper has no
+// summary for one of its wrapped arguments (the older, coarser reasoning applies then).
+func (f *kindFlow) resultByParams(c *ssa.Call, callee *ssa.Function, k int, s *kindState, depth int) (wrapState, bool) {
+	if f.a.retW[callee] == nil || f.a.returnsElement(callee) || len(c.Call.Args) != len(callee.Params) {
+		return wNo, false
+	}
+	if k >= callee.Signature.Results().Len() || !isReflectValue(callee.Signature.Results().At(k).Type()) {
+		return wNo, false
+	}
+	res := wNo
+	for i, a := range c.Call.Args {
+		if !isReflectValue(a.Type()) || f.wrapOf(a, s, depth+1) == wNo {
+			continue
+		}
+		w, ok := f.a.retW[callee][[2]int{i, k}]
+		if !ok {
+			return wNo, false
+		}
+		res = joinW(res, w)
+	}
+	return res, true
 }
 
 // mayReturnArg: the helper can return one of its reflect.Value parameters as is.
@@ -646,7 +681,7 @@ func (f *kindFlow) edge(from *ssa.BasicBlock, succ int, s *kindState) (*kindStat
 }
 
 func buildKindAnalysis(m *vmModel) *kindAnalysis {
-	a := &kindAnalysis{m: m, discr: map[*ssa.Function]map[int]string{}, finds: map[*ssa.Function][]kindFinding{}}
+	a := &kindAnalysis{m: m, discr: map[*ssa.Function]map[int]string{}, finds: map[*ssa.Function][]kindFinding{}, retW: map[*ssa.Function]map[[2]int]wrapState{}}
 	collect := func(fl *kindFlow) []kindFinding {
 		var out []kindFinding
 		for _, k := range fl.finds {
@@ -677,7 +712,34 @@ func buildKindAnalysis(m *vmModel) *kindAnalysis {
 				fl := &kindFlow{a: a, fn: fn, base: m.baseOf(fn), wrapP: i, finds: map[string]kindFinding{}}
 				st0 := fl.Entry()
 				st0.rv = wNo
-				runForwardWith(fn, fl, st0)
+				before := runForwardWith(fn, fl, st0)
+				// return summary: what the results are when this parameter arrives wrapped (a helper that takes its argument out of
+				// the interface and hands it back returns an unwrapped value; one that hands it back as it came does not)
+				for _, b := range fn.Blocks {
+					ret, ok := b.Instrs[len(b.Instrs)-1].(*ssa.Return)
+					if !ok || b == fn.Recover {
+						continue
+					}
+					stR, ok := before[ret]
+					if !ok {
+						continue
+					}
+					for k, rv := range ret.Results {
+						if !isReflectValue(rv.Type()) {
+							continue
+						}
+						w := fl.wrapOf(rv, stR, 0)
+						if a.retW[fn] == nil {
+							a.retW[fn] = map[[2]int]wrapState{}
+						}
+						key := [2]int{i, k}
+						if old, seen := a.retW[fn][key]; !seen {
+							a.retW[fn][key] = w
+						} else if j := joinW(old, w); j != old {
+							a.retW[fn][key] = j
+						}
+					}
+				}
 				if fs := collect(fl); len(fs) > 0 {
 					// only findings about the parameter itself
 					for _, k := range fs {
@@ -728,9 +790,10 @@ func buildKindAnalysis(m *vmModel) *kindAnalysis {
 }
 
 // runForwardWith runs the dataflow with a given entry state.
-func runForwardWith(fn *ssa.Function, fl *kindFlow, st *kindState) {
+func runForwardWith(fn *ssa.Function, fl *kindFlow, st *kindState) map[ssa.Instruction]*kindState {
 	w := &kindFlowStart{kindFlow: fl, start: st}
 	before, _ := runForward[*kindState](fn, w)
+	defer func() { fl.reporting = false }()
 	// findings come from the fixpoint states only
 	fl.reporting = true
 	for _, b := range fn.Blocks {
@@ -741,6 +804,7 @@ func runForwardWith(fn *ssa.Function, fl *kindFlow, st *kindState) {
 		}
 	}
 	fl.reporting = false
+	return before
 }
 
 type kindFlowStart struct {
